@@ -94,6 +94,10 @@ type Kernel struct {
 	schedGoid   int64
 	lockSeq     int
 	StrictQuiet bool
+	// Starve, if set, marks tasks that are scheduled only when nothing else (no other task, no due timer) can run:
+	// a stalled thread / slow node fault. Time still does not advance past them.
+	Starve func(t *Task) bool
+	Starved int
 }
 
 // K is the kernel of the current run (nil when no kernel-controlled run is active).
@@ -465,7 +469,7 @@ type RunResult struct {
 // every quiescent instant before the next event is chosen (invariants); stop ends the loop when it returns true.
 func (k *Kernel) Run(maxSteps int, atQuiet func(), stop func() bool) RunResult {
 	res := RunResult{}
-	var enabled []*Task
+	var enabled, starved []*Task
 	for {
 		k.waitQuiescent()
 		if k.InfraErr != "" {
@@ -485,6 +489,7 @@ func (k *Kernel) Run(maxSteps int, atQuiet func(), stop func() bool) RunResult {
 		}
 		k.lock()
 		enabled = enabled[:0]
+		starved = starved[:0]
 		n := int(k.ntasks.Load())
 		unfinished := 0
 		for i := 0; i < n; i++ {
@@ -495,11 +500,21 @@ func (k *Kernel) Run(maxSteps int, atQuiet func(), stop func() bool) RunResult {
 			}
 			unfinished++
 			if s == stParked && t.wait.Ready(t) {
-				enabled = append(enabled, t)
+				if k.Starve != nil && k.Starve(t) {
+					starved = append(starved, t)
+				} else {
+					enabled = append(enabled, t)
+				}
 			}
 		}
 		k.unlock()
-		_, hasTimer := C.NextAt()
+		nextAt, hasTimer := C.NextAt()
+		due := hasTimer && nextAt <= C.Elapsed()
+		if len(enabled) == 0 && !due && len(starved) > 0 {
+			enabled = append(enabled, starved...)
+		} else if len(starved) > 0 {
+			k.Starved++
+		}
 		if len(enabled) == 0 && !hasTimer {
 			if unfinished > 0 {
 				res.Stuck = true
@@ -509,9 +524,13 @@ func (k *Kernel) Run(maxSteps int, atQuiet func(), stop func() bool) RunResult {
 		}
 		res.Steps++
 		k.Steps++
+		// A timer that is due now competes with the runnable tasks like one more task. A timer in the future fires
+		// when nothing is runnable, or - with probability 1/TimerBias - earlier (the node is slow relative to the clock).
 		fireTimer := false
 		if len(enabled) == 0 {
 			fireTimer = true
+		} else if due && !k.FIFO {
+			fireTimer = k.ch.Intn("due?", len(enabled)+1) == len(enabled)
 		} else if hasTimer && k.TimerBias > 0 && !k.FIFO {
 			fireTimer = k.ch.Intn("timer?", k.TimerBias) == k.TimerBias-1
 		}
